@@ -717,4 +717,66 @@ theorem protocol_eq (idna : Idna) (L : Nat) (v : Bytes) (hne : v ≠ [])
               · exact h4 b e
             rw [this]
 
+/-! ### the helpers -/
+theorem escape_pattern_bits : ∀ b : UInt8, (tget Gen.escapePatternTable b.toNat != 0) = Spec.Pattern.isPatternSyntax b := by
+  apply forall_uint8_of_fin; decide +kernel
+theorem escape_regexp_bits : ∀ b : UInt8, (tget Gen.escapeRegexpTable b.toNat != 0) = Spec.Pattern.isRegexpSyntax b := by
+  apply forall_uint8_of_fin; decide +kernel
+
+theorem escapePattern_eq (v : Bytes) : PatternCanon.escapePatternString v = Spec.Pattern.escapePatternString v := by
+  unfold PatternCanon.escapePatternString Spec.Pattern.escapePatternString
+  split
+  · rename_i h
+    have : v = [] := by simpa using h
+    subst this; rfl
+  · congr 1; funext b; rw [escape_pattern_bits]
+
+theorem escapeRegexp_eq (v : Bytes) : PatternCanon.escapeRegexpString v = Spec.Pattern.escapeRegexpString v := by
+  unfold PatternCanon.escapeRegexpString Spec.Pattern.escapeRegexpString
+  congr 1; funext b; rw [escape_regexp_bits]
+
+theorem processBase_eq (v : Bytes) (pat : Bool) :
+    PatternCanon.processBaseUrlString v pat = Spec.Pattern.processBaseUrlString v pat := by
+  unfold PatternCanon.processBaseUrlString Spec.Pattern.processBaseUrlString
+  cases pat
+  · rfl
+  · simp only [Bool.not_true, Bool.false_eq_true, ↓reduceIte]; exact escapePattern_eq v
+
+theorem pair_beq (a b c d : UInt8) : (([a, b] : Bytes) == [c, d]) = (a == c && b == d) := by
+  by_cases h1 : a = c <;> by_cases h2 : b = d <;> simp [h1, h2]
+
+theorem isIpv6Address_eq (v : Bytes) : PatternCanon.isIpv6Address v = Spec.Pattern.isIpv6Address v := by
+  unfold PatternCanon.isIpv6Address Spec.Pattern.isIpv6Address
+  match v with
+  | [] => rfl
+  | [a] => rfl
+  | a :: b :: r =>
+    have hl : ¬ (a :: b :: r).length < 2 := by simp
+    have hh : (some a == some (0x5B : UInt8)) = (a == 0x5B) := by
+      by_cases h : a = 0x5B <;> simp [h]
+    simp only [hl, ↓reduceIte, List.head?_cons, List.take_succ_cons, List.take_zero, pair_beq, hh]
+    cases (a == 0x5B) <;> cases (a == 0x7B && b == 0x5B) <;> simp
+
+theorem isAbsolutePathname_eq (v : Bytes) (url : Bool) :
+    PatternCanon.isAbsolutePathname v url = Spec.Pattern.isAbsolutePathname v url := by
+  unfold PatternCanon.isAbsolutePathname Spec.Pattern.isAbsolutePathname
+  match v with
+  | [] => rfl
+  | [a] =>
+    have hh : (some a == some (0x2F : UInt8)) = (a == 0x2F) := by
+      by_cases h : a = 0x2F <;> simp [h]
+    simp only [List.isEmpty_cons, Bool.false_eq_true, ↓reduceIte, List.head?_cons, hh]
+    cases (a == 0x2F) <;> cases url <;> simp
+  | a :: b :: r =>
+    have hl : ¬ (a :: b :: r).length < 2 := by simp
+    have hh : (some a == some (0x2F : UInt8)) = (a == 0x2F) := by
+      by_cases h : a = 0x2F <;> simp [h]
+    have h0 : ((a :: b :: r)[0]? == some (0x5C : UInt8)) = (a == 0x5C) := by
+      by_cases h : a = 0x5C <;> simp [h]
+    have h0' : ((a :: b :: r)[0]? == some (0x7B : UInt8)) = (a == 0x7B) := by
+      by_cases h : a = 0x7B <;> simp [h]
+    have h1 : ((a :: b :: r)[1]? == some (0x2F : UInt8)) = (b == 0x2F) := by
+      by_cases h : b = 0x2F <;> simp [h]
+    simp only [List.isEmpty_cons, Bool.false_eq_true, ↓reduceIte, List.head?_cons, hh, hl, h0, h0', h1]
+
 end AdaVerif.Lemmas.PC
